@@ -139,11 +139,107 @@ HOOK = None     # c09_events.Hook installed by the harness (observation only)
 SCN = "doc"
 
 
-def run_reader(fmt, data, failsafe, into=None, **kw):
-    """-> ('ok', store) | ('exc', exception)"""
+# ---- reader variants: every documented way to select the mode of a reader entry point
+#   plain       failsafe=<mode>, stripped=<s>
+#   cls         decoder=<shipped class for (mode, s)>, failsafe=<mode>
+#   cls_contra  decoder=<shipped class for (mode, s)>, failsafe=<not mode>, stripped=<not s>  ("ignored if a decoder class
+#               is specified": the mode is what the decoder says)
+#   sub_contra  decoder=<trivial subclass of the shipped class>, failsafe=<not mode>
+# each through read_aas_*_file or read_aas_*_file_into(<empty DictObjectStore>)
+PLAIN = {"kind": "plain", "stripped": False, "into": False}
+_SUBCLASSES = {}
+
+
+def decoder_class(fmt, mode, stripped, subclass=False):
+    from basyx.aas.adapter import json as J, xml as X
+    table = {("json", True, False): J.AASFromJsonDecoder, ("json", False, False): J.StrictAASFromJsonDecoder,
+             ("json", True, True): J.StrippedAASFromJsonDecoder, ("json", False, True): J.StrictStrippedAASFromJsonDecoder,
+             ("xml", True, False): X.AASFromXmlDecoder, ("xml", False, False): X.StrictAASFromXmlDecoder,
+             ("xml", True, True): X.StrippedAASFromXmlDecoder, ("xml", False, True): X.StrictStrippedAASFromXmlDecoder}
+    c = table[(fmt, mode, stripped)]
+    if subclass:
+        if c not in _SUBCLASSES:
+            _SUBCLASSES[c] = type("Custom" + c.__name__, (c,), {})
+        c = _SUBCLASSES[c]
+    return c
+
+
+def style_kwargs(fmt, mode, style):
+    k, s = style["kind"], style["stripped"]
+    if k == "plain":
+        return {"failsafe": mode, "stripped": s}
+    if k == "cls":
+        return {"failsafe": mode, "decoder": decoder_class(fmt, mode, s)}
+    if k == "cls_contra":
+        return {"failsafe": not mode, "stripped": not s, "decoder": decoder_class(fmt, mode, s)}
+    return {"failsafe": not mode, "decoder": decoder_class(fmt, mode, s, subclass=True)}
+
+
+def style_of(h):
+    """deterministic choice of a reader variant from a hash: 60 % plain, the rest spread over the others"""
+    kinds = ["plain"] * 6 + ["cls", "cls_contra", "sub_contra", "plain"]
+    k = kinds[h % 10]
+    stripped = (h % 10 == 9) or (k != "plain" and (h // 10) % 4 == 0)
+    return {"kind": k, "stripped": stripped, "into": (h // 40) % 2 == 1}
+
+
+# ---- logging configurations: the result of a read must not depend on them
+def logcfg(n):
+    """context manager: 0 basyx logger silent (level above CRITICAL, the harness default), 1 level NOTSET (root default
+    WARNING), 2 DEBUG with a stream handler attached, 3 ERROR, 4 logging.disable(CRITICAL), 5 no handler at all
+    (root handlers removed, lastResort None), 6 CRITICAL"""
+    import contextlib
+
+    @contextlib.contextmanager
+    def cm():
+        lg, root = logging.getLogger("basyx"), logging.getLogger()
+        old = (lg.level, list(lg.handlers), list(root.handlers), logging.lastResort, logging.root.manager.disable)
+        h = None
+        try:
+            if n == 1:
+                lg.setLevel(logging.NOTSET)
+            elif n == 2:
+                lg.setLevel(logging.DEBUG)
+                h = logging.StreamHandler(io.StringIO())
+                lg.addHandler(h)
+            elif n == 3:
+                lg.setLevel(logging.ERROR)
+            elif n == 4:
+                lg.setLevel(logging.NOTSET)
+                logging.disable(logging.CRITICAL)
+            elif n == 5:
+                lg.setLevel(logging.NOTSET)
+                for x in list(root.handlers):
+                    root.removeHandler(x)
+                logging.lastResort = None
+                root.manager.emittedNoHandlerWarning = True     # no "No handlers could be found" line on stderr
+            elif n == 6:
+                lg.setLevel(logging.CRITICAL)
+            yield
+        finally:
+            lg.setLevel(old[0])
+            if h is not None:
+                lg.removeHandler(h)
+            for x in old[2]:
+                if x not in root.handlers:
+                    root.addHandler(x)
+            logging.lastResort = old[3]
+            logging.disable(old[4])
+    return cm()
+
+
+def run_reader(fmt, data, failsafe, into=None, style=None, **kw):
+    """-> ('ok', store) | ('exc', exception);  `failsafe` is the mode; `style` says how the mode is selected"""
     if HOOK is not None:
         HOOK.begin(failsafe, SCN)
     try:
+        if style is not None and style is not PLAIN:
+            kw = dict(kw)
+            kw.update(style_kwargs(fmt, failsafe, style))
+            flag = kw.pop("failsafe")
+            if style["into"] and into is None:
+                into = model.DictObjectStore()
+            return _run_reader(fmt, data, flag, into, **kw)
         return _run_reader(fmt, data, failsafe, into, **kw)
     finally:
         if HOOK is not None:
@@ -601,13 +697,13 @@ def documented(e):
     return isinstance(e, DOCUMENTED)
 
 
-def oracle(fmt, data, base_canon, damaged_ids, all_ids, dup_rule=None, harmless=False):
+def oracle(fmt, data, base_canon, damaged_ids, all_ids, dup_rule=None, harmless=False, style=None, out=None):
     """Runs failsafe and strict readers on `data`.
     base_canon: {id: canonical form} of the undamaged read;  damaged_ids: ids of identifiables containing
     the damage (their fate is free);  all_ids: ids present in the undamaged document.
     Returns (obs, failure) with obs = (failsafe outcome, strict outcome) and failure = None | (kind, text)."""
-    k1, r1 = run_reader(fmt, data, True)
-    k2, r2 = run_reader(fmt, data, False)
+    k1, r1 = run_reader(fmt, data, True, style=style)
+    k2, r2 = run_reader(fmt, data, False, style=style)
     fs = "ok" if k1 == "ok" else classify(r1)
     stc = "ok" if k2 == "ok" else classify(r2)
     fail = None
@@ -642,4 +738,7 @@ def oracle(fmt, data, base_canon, damaged_ids, all_ids, dup_rule=None, harmless=
                 fail = ("strict-differs", f"strict read returned without raising but differs from failsafe on {diffs[:3]!r}")
         elif not documented(r2):
             fail = ("strict-raises:" + classify(r2), f"strict read raised undocumented {type(r2).__name__}: {str(r2)[:300]}")
+    if out is not None:
+        out["failsafe"] = c1
+        out["strict"] = canon_of(r2) if k2 == "ok" else None
     return (fs, stc), fail
